@@ -351,6 +351,36 @@ def run(ctx, res):
                          'p8tool %s failed (%s) but its destination %s was %s' % (cmd, outcome, os.path.basename(dest),
                                                                                  'removed or changed' if existed else 'created'),
                          {'command': cmd, 'dest_existed': existed, 'code': 'a=b=c'})
+    # several carts on one command line, the failing one after a good one, in every combination of formats and --overwrite:
+    # what failed to be produced must leave ITS destination (input cart or <cart>_fmt) as it was
+    for ow in (True, False):
+        for ext1 in ('.p8', '.p8.png'):
+            good = os.path.join(ctx.tmp, 'multi_good_%d%s' % (ow, ext1))
+            gfile.to_file(U.make_game(rng=rng, code=b'x=1\n', version=8), good)
+            bad = os.path.join(ctx.tmp, 'multi_bad_%d%s.p8' % (ow, ext1.replace('.', '_')))
+            open(bad, 'wb').write(data)                       # `a=b=c`
+            bad_dest = bad if ow else bad[:-3] + '_fmt.p8'
+            for existed in ((True,) if ow else (True, False)):
+                if not ow:
+                    if existed:
+                        open(bad_dest, 'wb').write(b'PREVIOUS OUTPUT')
+                    elif os.path.exists(bad_dest):
+                        os.remove(bad_dest)
+                before = snapshot(bad_dest)
+                with U.quiet(), contextlib.redirect_stdout(io.StringIO()), contextlib.redirect_stderr(io.StringIO()):
+                    try:
+                        outcome = 'rc%s' % tool.main(['-q', 'luafmt'] + (['--overwrite'] if ow else []) + [good, bad])
+                    except BaseException as e:
+                        outcome = 'raised ' + type(e).__name__
+                res.evaluations += 1
+                res.count('cli-multi-file')
+                res.nontrivial.add(('cli-multi', ow, ext1, existed))
+                if outcome != 'rc0' and snapshot(bad_dest) != before:
+                    res.fail('C11:cli-multi:%s:%s:%s' % (ow, ext1, existed),
+                             'p8tool luafmt%s %s %s: the second cart failed (%s) and its destination %s was %s' % (
+                                 ' --overwrite' if ow else '', os.path.basename(good), os.path.basename(bad), outcome, os.path.basename(bad_dest),
+                                 'removed' if snapshot(bad_dest) is None else 'changed'),
+                             {'overwrite': ow, 'first_cart': ext1, 'dest_existed': existed})
     # model trace shape (Lean `toFile`) is compared structurally above: [exists, (read label)], temp writes, seek, open, write
 
 
